@@ -101,6 +101,23 @@ theorem evClause_clearItems (pre post : St) (b : Nat) (ev : Ev) :
   cases ev <;> simp only [evClause, clearItems_bout, clearItems_iout, clearItems_ibatch, clearItems_payload,
     clearItems_kind, clearItems_active, clearItems_items] <;> (try rfl)
 
+theorem ext_clearUnlessKept {s0 s : St} (kp : Bool) (b : Nat) (h : Ext s0 s) : Ext s0 (s.clearUnlessKept kp b) := by
+  cases kp
+  · exact ext_clearItems b h
+  · exact h
+
+theorem good_clearUnlessKept {s : St} (kp : Bool) (b : Nat) (h : Good s) (hb : (s.bout b).isSome) :
+    Good (s.clearUnlessKept kp b) := by
+  cases kp
+  · exact good_clearItems b h hb
+  · exact h
+
+theorem evClause_clearUnlessKept (pre post : St) (kp : Bool) (b : Nat) (ev : Ev) :
+    evClause pre (post.clearUnlessKept kp b) ev = evClause pre post ev := by
+  cases kp
+  · exact evClause_clearItems pre post b ev
+  · rfl
+
 /-! assembling `specStep` -/
 
 theorem specStep_none {pre : St} {ob : Obs} (h1 : opClause pre ob = none)
